@@ -85,7 +85,9 @@ func rewriteIRIs(v reflect.Value, depth int) {
 			return
 		}
 		for i := 0; i < v.NumField(); i++ {
-			rewriteIRIs(v.Field(i), depth+1)
+			if v.Type().Field(i).IsExported() {
+				rewriteIRIs(v.Field(i), depth+1)
+			}
 		}
 	case reflect.Slice:
 		for i := 0; i < v.Len(); i++ {
@@ -266,7 +268,7 @@ func sharedValue(g *vmodel.Gen, idx int) vocab.Item {
 		// members that have nothing to say (nil, typed nil) in the middle of the lists: an encoder that filters in place shows here
 		v := reflect.ValueOf(p).Elem()
 		for i := 0; i < v.NumField(); i++ {
-			if v.Field(i).Type() == vmodel.IcT && v.Field(i).Len() >= 1 {
+			if v.Type().Field(i).IsExported() && v.Field(i).Type() == vmodel.IcT && v.Field(i).Len() >= 1 {
 				old := v.Field(i).Interface().(vocab.ItemCollection)
 				nl := make(vocab.ItemCollection, 0, len(old)+4)
 				nl = append(nl, old[0], nil, (*vocab.Object)(nil))
@@ -282,15 +284,6 @@ func sharedValue(g *vmodel.Gen, idx int) vocab.Item {
 		return g.Items(2, 3)
 	}
 	return p.(vocab.Item)
-}
-
-// wide readings of the same collection kinds are not comparable through views that the layout monitor flags (C08's known finding)
-func skipOp(op roOp, x vocab.Item) bool {
-	switch x.(type) {
-	case *vocab.CollectionPage, vocab.CollectionPage:
-		return op.Name == "OnOrderedCollectionPage(read-only)" || op.Name == "ToOrderedCollectionPage"
-	}
-	return false
 }
 
 var unrelatedDocs = func() [][]byte {
@@ -322,9 +315,6 @@ func init() {
 					before := vmodel.TakeSnapshot(x)
 					beforeH := vmodel.SnapshotHash(x)
 					for _, op := range allRoOps {
-						if skipOp(op, x) {
-							continue
-						}
 						c.Pending(op.Name + " :: " + kindOf(x))
 						if c.Guard(op.Name, func() { _ = op.apply(x, variant) }) {
 							continue
@@ -344,7 +334,7 @@ func init() {
 						c.Sample(map[string]any{"value": clipS(vmodel.Canon(x, vmodel.Exact).String(), 300), "operations": nOps, "snapshot_entries": len(before.Entries)})
 					}
 				}},
-				{Name: "concurrent", N: tierN(tier, 96, 3000), Run: func(c *Ctx, idx int) {
+				{Name: "concurrent", N: tierN(tier, 96, 480), Run: func(c *Ctx, idx int) {
 					if c.Build != "race" {
 						return
 					}
@@ -352,9 +342,7 @@ func init() {
 					x := sharedValue(g, idx)
 					var ops []roOp
 					for _, op := range allRoOps {
-						if !skipOp(op, x) {
-							ops = append(ops, op)
-						}
+						ops = append(ops, op)
 					}
 					variant := variantCopy(x)
 					// sequential results first
@@ -449,7 +437,7 @@ func init() {
 			}
 		},
 		Floors: func(tier string) map[string]int64 {
-			return map[string]int64{"snapshot-ops": 30000, "concurrent-ops": int64(tierN(tier, 20000, 500000)), "overlapping-op-pairs-observed": 500}
+			return map[string]int64{"snapshot-ops": 30000, "concurrent-ops": int64(tierN(tier, 20000, 250000)), "overlapping-op-pairs-observed": 500}
 		},
 		Assumptions: []string{
 			"gob bytes depend on map iteration order, so gob results are compared through the canonical tree of their decoding",
